@@ -54,6 +54,11 @@ func c10Cases(c *Ctx) []c10Case {
 		add(sCfg{"NONE", "NONE", 4096, 1, 64, 0, false}, "random", n)
 		add(sCfg{"LZ", "ANS0", 4096, 1, 32, 0, false}, "text", n)
 	}
+	// block lengths around the thresholds that are part of the format (BWT: one primary index below 256 bytes, eight from 256 on)
+	for i, n := range []int{255, 256, 257, 1024 + 256, 1024 + 255, 4096} {
+		add(sCfg{"BWT", []string{"NONE", "ANS0", "HUFFMAN"}[i%3], 1024, 1, []uint{0, 32, 64}[i%3], 0, false}, "text", n)
+		add(sCfg{"BWTS", "NONE", 1024, 1, 32, 0, false}, "text", n)
+	}
 	// many distinct contexts + long repeats: collisions in the hash tables of the match finders are part of the format
 	for i, t := range []string{"LZP", "LZ", "LZX", "ROLZ", "ROLZX", "LZP+LZ"} {
 		add(sCfg{t, "NONE", 65536, 1, []uint{32, 0, 64}[i%3], 0, false}, "rnd+repeats", 65536)
